@@ -11,7 +11,13 @@ func init() {
 	register("C07", func(r *Rand, p *Plan, t string) { genRef(r, p, t, "C07") })
 	register("C10", func(r *Rand, p *Plan, t string) { genRef(r, p, t, "C10") })
 	register("C11", func(r *Rand, p *Plan, t string) { genRef(r, p, t, "C11") })
-	register("C12", func(r *Rand, p *Plan, t string) { genRef(r, p, t, "C12") })
+	register("C12", func(r *Rand, p *Plan, t string) {
+		if r.Chance(12) {
+			genSyslogDirect(r, p, t)
+			return
+		}
+		genRef(r, p, t, "C12")
+	})
 	register("C13", func(r *Rand, p *Plan, t string) {
 		if r.Chance(10) {
 			genConcurrentAdmission(r, p, t)
@@ -965,6 +971,49 @@ func genConcurrentAdmission(r *Rand, p *Plan, tier string) {
 	}
 	p.Tape = r.Tape(1500)
 	p.MaxSteps = 1500
+}
+
+// genSyslogDirect: accounting requests handed to the syslog-backed accounter while the
+// syslog daemon goes away and comes back (see runner/syslogdirect.go).
+func genSyslogDirect(r *Rand, p *Plan, tier string) {
+	p.Family = "syslog-accounter"
+	p.Scen.Server = "syslog-direct"
+	p.Scen.Faulty = true
+	cs := ClientSpec{Addr: clientAddr(0)}
+	up := true
+	n := 2 + r.Intn(8)
+	sid := r.session()
+	for k := 0; k < n; k++ {
+		switch c := r.Intn(20); {
+		case c < 3 && up:
+			cs.Ops = append(cs.Ops, Op{Kind: "sink-down"})
+			up = false
+			continue
+		case c < 8 && !up:
+			cs.Ops = append(cs.Ops, Op{Kind: "sink-up"})
+			up = true
+			continue
+		}
+		af := PickOf(r, uint8(2), 4, 8, 0x0a, 2, 4)
+		if r.Chance(12) {
+			af = uint8(r.Intn(256))
+		}
+		if r.Chance(6) {
+			af = 4 | 8 | uint8(r.Intn(4))
+		}
+		seq := uint8(1)
+		if r.Chance(30) {
+			seq = uint8(1 + 2*r.Intn(100))
+		}
+		body := BodySpec{Kind: model.KAcctReq, N: []uint8{af, 6, 1, 1, 1}, S: [][]byte{[]byte("u" + r.Alnum(4)), []byte(hostileText(r, "tty")), []byte(hostileText(r, "addr"))}, Args: toArgs(GenAcctArgs(r))}
+		if r.Chance(8) {
+			body = BodySpec{Kind: "raw", Raw: r.Bytes(r.Len(60))}
+		}
+		cs.Ops = append(cs.Ops, Op{Kind: "send", Pkt: &PktSpec{Ver: r.version(), Type: model.TypeAcct, Seq: seq, Flags: r.flags(false), Session: sid + uint32(k), Body: body}})
+	}
+	p.Scen.Clients = []ClientSpec{cs}
+	p.Tape = nil
+	p.MaxSteps = 100
 }
 
 func genC15(r *Rand, p *Plan, tier string) {
